@@ -338,6 +338,12 @@ def gen(ck, exes):
     body += "def orders : List (String × String × String × Nat × Nat) := [\n" + ",\n".join(
         '  ("%s", "%s", "%s", %d, %d)' % e for e in sorted(table)) + "]\n"
     gen_write("C08", body)
+    weak = [e for e in sorted(table) if (e[4] == 2 and e[3] not in (3, 4, 5)) or (e[4] == 1 and e[3] not in (2, 4, 5))]
+    ck.oblige("gen:orders every releasing access is release-or-stronger and every acquiring access acquire-or-stronger "
+              "(Lean: rw_orders_publish over Generated.C08.orders)", "generated", not weak,
+              "" if not weak else "too weak (lock, variable, access, std::memory_order, role 1=acquire 2=release): %s — on the sequentially consistent "
+              "shim (and on x86-TSO hardware, where such a store is still a plain mov) no failing execution can be exhibited; the C++11 "
+              "guarantee 'writes of a critical section are visible to the next holder' is lost" % weak)
     locks = {e[0] for e in table}
     ck.oblige("gen:orders-table covers every lock kind with an acquiring and a releasing access", "generated",
               all(any(e[0] == l and e[4] == 1 for e in table) and any(e[0] == l and e[4] == 2 for e in table) for l in FAMILIES),
@@ -353,9 +359,9 @@ def run_family(ck, name, exe, spin):
     ename, _, ops, corpus, maxlen, kind = FAMILIES[name]
     quick = ck.tier == "quick"
     heavy = kind.startswith("slp")
-    nsc = (10 if heavy else 25) if quick else (60 if heavy else 200)
+    nsc = (10 if heavy else 25) if quick else (45 if heavy else 140)
     scs = corpus + scenarios(ck.rng, ops, nsc, maxlen)
-    nrand = (12 if heavy else 30) if quick else (60 if heavy else 150)
+    nrand = (12 if heavy else 30) if quick else (50 if heavy else 110)
     bad_corr, bad_mon = [], []
     nruns = slept = 0
     for si, sc in enumerate(scs):
@@ -383,23 +389,33 @@ def run_family(ck, name, exe, spin):
                 if d:
                     bad_corr.append((sc, r, d))
         if rc not in (0, 1, 3):
-            bad_mon.append((sc, {"mon": "harness crashed rc=%d %s" % (rc, err[-300:]), "sched": []}))
+            # the lock code crashed (e.g. a null successor dereference): the failing schedule is the run after the last printed one
+            bad_mon.append((sc, {"mon": "CRASH the lock code crashed (rc=%d) %s" % (rc, err[-200:].strip()), "sched": [],
+                                 "rerun": ["rand", str(ck.seed * 1000 + si), str(len(runs) + 1)]}))
         if si < 1 and runs:
             ck.sample({"lock": name, "scenario": [" ".join(p) for p in sc], "effective": runs[0]["eff"],
                        "trace_head": (runs[0]["ev"] or runs[0]["v"])[:10], "results": runs[0]["res"]}, cap=10)
     # bounded-preemption exhaustive exploration of the contention scenarios with the property monitors
-    dfs_runs = 0
+    dfs_runs = dfs_starved = 0
     if not heavy:
         for sc in corpus[: (3 if quick else len(corpus))]:
-            rc, out, err = sh([exe, "dfs", "2" if quick else "3", "20000" if quick else "300000"], input=prog_text(sc), timeout=1500)
+            cap = ("8000" if kind in ("qrw", "mon") else "20000") if quick else ("50000" if kind in ("qrw", "mon") else "200000")
+            rc, out, err = sh([exe, "dfs", "2" if quick else "3", cap], input=prog_text(sc), timeout=1500)
             m = re.search(r"summary runs=(\d+) bad=(\d+)", out)
             if m:
                 dfs_runs += int(m.group(1))
+            if rc == 4 and m and m.group(2) == "0" and "starved=1" in out:
+                # the enumeration stopped at an unfair schedule (a thread spinning with writes was never preempted): not a failure
+                dfs_starved += 1
+                continue
             if rc != 0 or not m or m.group(2) != "0":
                 rs = parse_runs(out)
-                bad_mon.append((sc, rs[-1] if rs else {"mon": "harness rc=%d %s" % (rc, (out + err)[-300:]), "sched": []}))
+                bad_mon.append((sc, rs[-1] if rs else {"mon": "CRASH the lock code crashed or hung during the bounded-preemption enumeration (rc=%d) %s" % (rc, (out + err)[-200:].strip()),
+                                                      "sched": [], "rerun": ["dfs", "2" if quick else "3", cap]}))
     ck.evaluations += dfs_runs
     info = {"random_runs": nruns, "dfs_runs": dfs_runs}
+    if dfs_starved:
+        info["dfs_enumerations_stopped_at_an_unfair_schedule"] = dfs_starved
     if heavy:
         info["runs_in_which_a_thread_slept"] = slept
     ck.extra.setdefault("schedules", {})[name] = info
@@ -426,7 +442,7 @@ def run_family(ck, name, exe, spin):
         ck.counterexample("%s:%s" % (name, r["mon"].split(" ")[0] if r["mon"] else "?"),
                           "%s: %s under schedule %s" % (name, r["mon"], " ".join(r["sched"])),
                           {"engine": "E-SHIM", "lock": name, "scenario": sc, "schedule": r["sched"], "monitor": r["mon"],
-                           "trace": (r.get("ev") or r.get("v") or [])[:200]})
+                           "rerun": r.get("rerun"), "trace": (r.get("ev") or r.get("v") or [])[:200]})
     return bad_corr, bad_mon
 
 
@@ -458,9 +474,9 @@ def run(ck):
         "queuing_mutex (Mcs), the word protocols of mutex and rw_mutex together with the sleep/wake hand-shake",
         "the concurrent_monitor behind wait_on_address/notify_* is modelled at its linearisation points (enqueue, predicate load, epoch check, "
         "semaphore P/V, flush under the monitor mutex); its internals (own mutex, list, futex) are serialised by its mutex and belong to C02",
-        "rw_mutex: the wake rules are proved per step (rwm_wake_rules) and 'a removed sleeper has its wake-up in flight' for all schedules; the "
-        "global statement 'no thread sleeps on a satisfiable condition without a covering notifier' is proved for mutex (token invariant) but "
-        "for rw_mutex only checked by deadlock detection on the explored schedules",
+        "mutex / rw_mutex no-lost-wake-up theorems (mutex_handoff_no_loss, rw_handoff_no_loss, rw_wake_rules) are safety invariants over all "
+        "schedules ('no state in which a committed sleeper's condition holds and no notifier / woken thread is in flight'); progress of the "
+        "in-flight notifier itself is not a theorem (it has no blocking step in the model) — deadlock detection checks it on explored schedules",
         "queuing_rw_mutex: PARTIAL — only the specification machine QRwSpec is proved (safety, queue order, truthful upgrade, atomic downgrade); "
         "the node protocol of queuing_rw_mutex.cpp (my_prev/my_next/my_state/my_going/internal locks) is NOT modelled; the implementation is "
         "tied to the spec by validating its holder-bookkeeping event log on the explored schedules only",
@@ -484,6 +500,10 @@ def run(ck):
 def replay(ck, obj):
     r = obj["replay"]
     exe = FAMILIES[r["lock"]][1]()
-    rc, out, err = sh([exe, "replay", ",".join(r["schedule"])], input=prog_text(r["scenario"]), timeout=300)
-    print(out)
+    if r.get("rerun"):       # the harness died before it could print the schedule: re-run the seeded enumeration that led to it
+        rc, out, err = sh([exe] + r["rerun"], input=prog_text(r["scenario"]), timeout=900)
+    else:
+        rc, out, err = sh([exe, "replay", ",".join(r["schedule"])], input=prog_text(r["scenario"]), timeout=300)
+    print(out[-3000:])
+    print("harness exit status %d" % rc)
     return 0 if rc == 0 else 1
